@@ -143,7 +143,9 @@ def composite_cases(term, ns, mus):
                 if lab.startswith("w") and i == 0 or lab.startswith("rej"):
                     yield f"pairs:{names[i]}={lab}", (lambda fs=fs: [(n, g()) for n, g in zip(names, fs)]), ref
                     yield f"iter:{names[i]}={lab}", (lambda fs=fs: iter([(n, g()) for n, g in zip(names, fs)])), ref
-                    yield f"foreign:{names[i]}={lab}", (lambda fs=fs: Foreign(**{n: g() for n, g in zip(names, fs)})), ref
+                    if not any(n.startswith("_") for n in names):
+                        # (the fields of an OBJECT source are its public attributes: a name with a leading underscore is a key only in a mapping)
+                        yield f"foreign:{names[i]}={lab}", (lambda fs=fs: Foreign(**{n: g() for n, g in zip(names, fs)})), ref
                     isdict_ = term.isdict() if term.kind == "cls" else term._cls is dict
                     if not isdict_ and call(lambda fs=fs: ns[term.name](**{n: g() for n, g in zip(names, fs)})).ok:
                         # an instance of the annotated class itself whose members are still raw
